@@ -323,18 +323,24 @@ def case_write(ctx, case):
             return
         valid = resp.get('valid') == '1'
         # theorem sortByParent_valid_iff says exactly when the as-written ordering is valid
+        is_sorted = resp.get('sorted') == '1'
         if not valid:
+            bad_kind, bad_txt = _first_bad(resp.get('rows', ''))
+            # known defect: exactly the inputs for which anyParentSort_valid_iff says the as-written order is invalid
+            known = bad_kind == 'parent-after-child' and is_sorted and not cond
             ctx.oracle(False, 'written SWC table is not valid (ids 1..N, roots -1, every parent listed before and numbered '
-                       'lower than its children): ' + _first_bad(resp.get('rows', '')), case,
-                       signature=SIG_ORDER if not cond else None)
+                       'lower than its children): ' + bad_txt, case, signature=SIG_ORDER if known else None)
         else:
             ctx.oracle(True, 'valid', case)
-        ctx.corr(str(int(valid)), str(int(cond)), 'validity of the written table vs the model condition '
-                 '"every node with a child has parent_id < node_id" (sortByParent_valid_iff)', case,
-                 signature=None)
+        if is_sorted:
+            # instance of sortByParent_valid_iff / anyParentSort_valid_iff on the implementation's own order
+            ctx.corr(str(int(valid)), str(int(cond)), 'validity of the written table vs the model condition '
+                     '"every node with a child has parent_id < node_id" (anyParentSort_valid_iff)', case)
         # --- correspondence with the model -----------------------------------------------------------
+        ctx.corr('1' if (is_sorted or valid) else '0', '1', 'write_swc: file order is neither an ascending sort by parent_id '
+                 '(make_swc_table as written) nor a valid parent-first order', case)
+        ctx.count('order_kind', 'parent-sort' if is_sorted else ('parent-first' if valid else 'other'))
         for key, what in (('mapok', 'node map is not a bijection of the node ids onto 1..N'),
-                          ('sorted', 'file order is not an ascending sort by parent_id'),
                           ('agree', 'file rows differ from the model table (labels / ids / parent remap / radius fill / columns)'),
                           ('mapagree', 'returned node map differs from the model map for the same order'),
                           ('hdr', 'header (comment lines / Meta line) differs from the model header'),
@@ -460,17 +466,21 @@ def _units_equal(a, b):
 
 
 def _first_bad(rows_s):
-    seen = set()
+    """(kind, text) of the first offending row: 'id' (ids not 1..N), 'root' (root not -1 / parent < 1),
+    'parent-after-child' (parent id is a later row), 'ok'."""
     k = 1
     for r in rows_s.split():
         f = r.split(':')
         i, p = int(f[0]), int(f[6])
         if i != k:
-            return f'row {k} has id {i}'
-        if p != -1 and not (p < i and p in seen):
-            return f'row {i} has parent {p}' + ('' if p >= 1 else ' (root must be -1)')
-        seen.add(i); k += 1
-    return 'ok'
+            return 'id', f'row {k} has id {i}'
+        if p != -1:
+            if p < 1:
+                return 'root', f'row {i} has parent {p} (a root must have -1)'
+            if p >= i:
+                return 'parent-after-child', f'row {i} has parent {p}'
+        k += 1
+    return 'ok', 'ok'
 
 
 # ------------------------------------------------------------------------------------------------
